@@ -75,7 +75,9 @@ class Prop(PropBase):
             'are then grown in place are generated on purpose. Each case: load once, '
             'run main, main, other, main on the same cached definitions with a deep snapshot of '
             'PipelineDefinition.pipeline, config.vars, config.shortcuts around every run and at every '
-            'step. thorough tier adds pairs on two real threads under a step-granular turnstile '
+            'step, then - caches cleared, configuration rebuilt - other, main, other (the opposite order); '
+            '30% of the cases are written to a temp dir as two yaml files whose paths differ only in case '
+            'and run through the real file loader. thorough tier adds pairs on two real threads under a step-granular turnstile '
             '(3 schedules each). non-trivial = some step changed a context container or the definition')
     trusted_base = [
         'PARTIAL: CPython-level atomicity (GIL) of dict/list operations, the logging module and third-party '
@@ -140,6 +142,10 @@ class Prop(PropBase):
         if not obs.get('same_pipeline_object', True):
             out.append(fail('cache-returned-different-object', 'the loader cache handed out a different '
                             'PipelineDefinition object for the same pipeline within one case'))
+        if obs.get('reverse_loaded_ok') is False:
+            out.append(fail('loaded-definition-not-pristine',
+                            'in the reverse-order pass a freshly loaded definition differs from a re-parse of '
+                            'its own yaml (another pipeline was handed out under its name)'))
         runs = list(obs.get('runs', []))
         groups = [('sequential', runs)]
         for th in obs.get('threaded', []):
@@ -182,6 +188,26 @@ class Prop(PropBase):
                                     f'{json.dumps(base["final"])[:300]} vs {json.dumps(runs[n]["final"])[:300]}'
                                     + ('; a shared definition had been modified by an earlier run' if dirty else ''),
                                     fp))
+        # a different order relative to the other pipeline: same trace, outcome and final context
+        rev = obs.get('reverse') or []
+        clean = not any(mutation_events(case, r) for r in runs + rev)     # nothing changed DURING a run
+        first = {}
+        for r in runs:
+            first.setdefault(r['pipe'], r)
+        for n, r in enumerate(rev):
+            out_events = mutation_events(case, r)
+            for name, kind, paths in out_events:
+                fp = event_fingerprint(name, kind, paths)
+                first_fp = first_fp or fp
+                out.append(fail('definition-unchanged', f'reverse-order run #{n} ({r["pipe"]}): shared '
+                                f'definition {name!r} changed by a {kind} step; paths: {paths[:4]}', fp))
+            b = first.get(r['pipe'])
+            if b is not None and clean and not same(b, r):
+                out.append(fail('order-independent',
+                                f'{r["pipe"]} run after/before the other pipeline in the opposite order differs '
+                                f'from its run in the first order: outcome {b["outcome"]!r} vs {r["outcome"]!r}; '
+                                f'final context {json.dumps(b["final"])[:300]} vs {json.dumps(r["final"])[:300]}',
+                                'run-depends-on-order-of-pipelines'))
         if 'solo' in obs:
             for th in obs['threaded']:
                 for p in ('main', 'other'):
@@ -223,6 +249,8 @@ class Prop(PropBase):
                 tags.append('argList-is-the-shortcuts-list')
         if case.get('threads'):
             tags.append('threaded')
+        if case.get('file_loader'):
+            tags.append('real-file-loader:' + case['file_loader'].get('layout', 'name'))
         if case.get('vars_yaml'):
             tags.append('config-vars-built-by-ruamel')
         if any(L.has_set(v) for _, v in case['vars']):
